@@ -224,16 +224,19 @@ class Gen:
         self.out.append(sc)
         return sc
 
-    def from_config(self, c, ceil="open", tagx=""):
+    def from_config(self, c, ceil="open", tagx="", warm=False):
         """SCEN line with redir = none: https://svc.test:P, the resolver answers the candidate list"""
         names = c["cands"]
         sid = "host-%s-c%d-%s%s" % ("+".join(names), c["carve"], ceil, tagx)
         allow = [self.host_entry("svc.test", "P")] + self.carve_entries(c["carve"])
         bad = [n for n in names if n not in c["allowed"]]
-        self.add(sid, "https://svc.test:{P}/start", "https|svc.test|{P}", {"svc.test": self.answers(names)}, allow,
-                 ["form-host", "cands-%d" % len(names)] + (["refused-candidate"] if bad else []), ceil=ceil,
-                 dest=[self.pool[n] for n in names],
-                 nontrivial=("host", tuple(names), c["carve"], ceil) if (bad or ceil != "open") else None)
+        sc = self.add(sid, "https://svc.test:{P}/start", "https|svc.test|{P}", {"svc.test": self.answers(names)}, allow,
+                      ["form-host", "cands-%d" % len(names)] + (["refused-candidate"] if bad else []) + (["warm"] if warm else []),
+                      ceil=ceil, dest=[self.pool[n] for n in names],
+                      nontrivial=("host", tuple(names), c["carve"], ceil, warm) if (bad or ceil != "open") else None)
+        if warm:
+            # the same Service has already served every carved-out (IP, port) pair when the request under test is made
+            sc["pre"] = [e["s"] + "/warm" for e in self.carve_entries(c["carve"])]
 
     def redirects(self, c):
         """SCEN line with a redirect: first hop is the carved-out literal http://127.0.0.2:P which answers 302"""
@@ -334,6 +337,11 @@ def connect_scenarios(exp, tier, rng):
         long3 = pri + [c for c in long3 if c not in pri][:100]
     for c in short + long3:
         g.from_config(c)
+    # ... and with a warm Service: the carved-out pairs were requested before (a verdict remembered per address
+    # instead of per address AND port would now let the other ports of a carved-out address through)
+    warm = [c for c in short if c["carve"] > 0 and any(n not in c["allowed"] for n in c["cands"])]
+    for c in (warm if tier != "quick" else rng.sample(warm, min(len(warm), 80))):
+        g.from_config(c, tagx="-warm", warm=True)
     # ceiling variants on a sample (all short lists in thorough)
     var = [c for c in short if c["carve"] in (2, 4, 6)]
     if tier == "quick":
